@@ -229,6 +229,11 @@ def applyOp (toks : List String) (w : World ByteArray) : Except Err (World ByteA
   | "commit" :: s :: ts => (cmdCommit theCfg (strat s) (hx ts) w, #[])
   | "checkout" :: s :: single :: ts => (cmdCheckout theCfg (strat s) (single == "1") (hx ts) w, #[])
   | "status" :: ts => (cmdStatus theCfg (hx ts) w, #[])
+  | "graph" :: ts =>
+    -- `dud graph`: same traversal as status, no effect on the project
+    (match cmdStatus theCfg (hx ts) w with
+     | .ok _ => .ok w
+     | .error e => .error e, #[])
   | "run" :: single :: ts => (cmdRun theCfg execCmd (single == "1") (hx ts) w, #[])
   | "push" :: single :: ts => (cmdPush theCfg (single == "1") (hx ts) w, #[])
   | "fetch" :: single :: ts => (cmdFetch theCfg (single == "1") (hx ts) w, #[])
